@@ -411,7 +411,8 @@ class SymReal:
         c = CTX
         if c is not None:
             half = ratval(Fraction(1, 2 * 10 ** n) if n >= 0 else Fraction(10 ** (-n), 2))
-            c.add_fact(z3.And(r - s.z <= half, s.z - r <= half, z3.Implies(s.z >= 0, r >= 0), z3.Implies(s.z <= 0, r <= 0)))
+            c.add_fact(z3.And(r - s.z <= half, s.z - r <= half, z3.Implies(s.z >= 0, r >= 0), z3.Implies(s.z <= 0, r <= 0),
+                              _round_uf(n)(-s.z) == -r))
         return SymReal(r)
 
     def __float__(s):
